@@ -150,9 +150,9 @@ def audit_axioms(pid):
     out = r.stdout
     detail = {}
     # parse blocks: "'name' depends on axioms: [a, b]" or "'name' does not depend on any axioms"
-    for m in re.finditer(r"^'(.+?)' depends on axioms: \[([^\]]*)\]", out, flags=re.S | re.M):
+    for m in re.finditer(r"^'([^\n]+?)' depends on axioms: \[([^\]]*)\]", out, flags=re.M):
         detail[m.group(1)] = [a.strip() for a in m.group(2).replace("\n", " ").split(",") if a.strip()]
-    for m in re.finditer(r"^'(.+?)' does not depend on any axioms", out, flags=re.M):
+    for m in re.finditer(r"^'([^\n]+?)' does not depend on any axioms", out, flags=re.M):
         detail[m.group(1)] = []
     discharged = 0
     bad = {}
